@@ -22,7 +22,9 @@ RULE = ("seeded random DCOPs (1-4 binary variables, 0-4 constraints of arity 1-3
         "footprints 0-6, communication loads; well-formed must_host hints (45%) and host_with hints (adhoc, "
         "25%; adhoc on factor graphs, 30%: a factor hosted with one variable = the SECP shape); method drawn among oneagent, adhoc, gh_cgdp, heur_comhost, oilp_cgdp, ilp_fgdp (factor graphs "
         "only) and called through the API with random/shuffle/choice replaced by the case's draws and GLPK by "
-        "PuLP's CBC in the driver process; non-trivial = at least 2 computations; distinct = distinct case JSON")
+        "PuLP's CBC in the driver process; 12%: the same through `pydcop distribute` (generated yaml file incl. agents, "
+        "routes, hosting costs, must_host with EMPTY entries in any position, host_with; run_cmd in process, --algo dsa, "
+        "footprints = the generator's own neighbour count); non-trivial = at least 2 computations; distinct = distinct case JSON")
 MODELLED = ("theorems (all instances, all rankings/draws, termination of the backtracking loop / of the retry "
             "included): oneagent, gh_cgdp, heur_comhost return a mapping hosting every computation once on declared "
             "agents within capacity, or ImpossibleDistributionException, never another error; adhoc (3 loops, hints, "
@@ -34,7 +36,7 @@ MODELLED = ("theorems (all instances, all rankings/draws, termination of the bac
             "by oneagent, gh_cgdp, heur_comhost, and by the ILP rows), adhoc's SECP loop capacity. Correspondence: "
             "model = implementation on every non-ILP case; for adhoc also Coq guard = harness classifier predicate and "
             "guards => observed result valid (valid_b, proved sound). The ILP methods are run and checked here by the "
-            "oracle only (their model is C24's); the distribute command (YAML front end) is not run.")
+            "oracle only (their model is C24's); 12% of the cases go through the distribute command in process (yaml file -> run_cmd, --algo dsa, oracle only).")
 META = dict(
     level_text=("Proof (Coq) that in the executable model of oneagent, gh_cgdp, heur_comhost (faithful to the "
                 "code incl. zero-hosting-cost pinning, stale candidate lists after a backtrack, random tie-breaks as "
@@ -52,7 +54,7 @@ META = dict(
                 "adhoc validity carries the guard secp_free (finding C23-adhoc-secp-hostwith). Hypotheses: unique "
                 "names (wf); heur_comhost: capacities >= 0; adhoc: hints_wfb, secp_free, each shuffle a permutation. "
                 "ILP: the solver is an oracle and the rows-to-feasibility tie is C24's correspondence. The `pydcop "
-                "distribute` command line is not exercised (only its timeout keyword was repaired). Trusted: Coq "
+                "distribute` command is exercised in process for the non-ILP methods with --algo dsa only. Trusted: Coq "
                 "kernel/vm_compute incl. primitive floats in the correspondence only (no theorem depends on them), "
                 "M_Dist.v, M_Dist2.v, harness, PuLP CBC."),
     technique="Coq proof over executable Gallina model + differential correspondence run + brute-force validity oracle",
@@ -66,9 +68,59 @@ CAPACITY_AWARE = {"adhoc", "gh_cgdp", "heur_comhost", "oilp_cgdp", "ilp_fgdp"}
 ALLOWED_ERRORS = {"ImpossibleDistributionException", "TimeoutError"}
 
 
+def dsa_footprints(c):
+    """ground truth for `--algo dsa` (memory = number of distinct neighbours in the constraints
+    hypergraph, UNIT_SIZE 1), computed from the generated scopes only"""
+    nb = {i: set() for i in range(c["nv"])}
+    for scope in c["cons"]:
+        for i in scope:
+            nb[i].update(j for j in scope if j != i)
+    return {"v%d" % i: len(nb[i]) for i in range(c["nv"])}
+
+
+def gen_cli(rng):
+    """a case for the `pydcop distribute` command: yaml file -> load_dcop_from_file -> graph of the
+    algorithm -> distribute() with the hints / agents read from the file"""
+    r = rng.random()
+    method = "adhoc" if r < 0.6 else "gh_cgdp" if r < 0.75 else "heur_comhost" if r < 0.9 else "oneagent"
+    c = dc.gen_instance(rng, graphs=["constraints_hypergraph"], max_agents=6 if method == "oneagent" else 4)
+    c["fp"] = dsa_footprints(c)
+    na, total = len(c["agents"]), sum(c["fp"].values())
+    dr = rng.randint(0, 4)
+    for a in c["agents"]:
+        if c["tight"] == "ample":
+            a["capacity"] = total + rng.randint(1, 5)
+        elif c["tight"] == "tight":
+            a["capacity"] = max(0, (total + na - 1) // na + rng.randint(-1, 2))
+        elif c["tight"] == "tiny":
+            a["capacity"] = rng.randint(0, 3)
+        else:
+            a["capacity"] = rng.randint(0, total + 2)
+        a["droute"], a["routes"] = dr, {}          # the yaml format has one default and symmetric routes
+    for j in range(na):
+        for k in range(j + 1, na):
+            if rng.random() < 0.4:
+                v = rng.randint(0, 6)
+                c["agents"][j]["routes"]["a%d" % k] = v
+                c["agents"][k]["routes"]["a%d" % j] = v
+    c["load"] = {}
+    c.update(method=method, via="cli", algo="dsa")
+    dc.add_hints(rng, c, p_must=0.75 if method == "adhoc" else 0.3, p_with=0.2 if method == "adhoc" else 0.0)
+    if c["must_host"] and rng.random() < 0.6:
+        # agents listed with an EMPTY must_host list, anywhere among the others
+        free = [a["name"] for a in c["agents"] if a["name"] not in c["must_host"]]
+        keys = list(c["must_host"]) + rng.sample(free, min(len(free), rng.randint(1, 2)))
+        rng.shuffle(keys)
+        c["must_host"] = {k: c["must_host"].get(k, []) for k in keys}
+    return c
+
+
 def gen(rng, n, tier):
     cases = []
     for i in range(n):
+        if rng.random() < 0.12:
+            cases.append(gen_cli(rng))
+            continue
         r = rng.random()
         if r < 0.14:
             method = "oneagent"
@@ -109,7 +161,77 @@ def gen(rng, n, tier):
     return cases
 
 
+def yaml_text(c):
+    import yaml
+    doc = {"name": "t", "objective": "min", "domains": {"d": {"values": [0, 1]}},
+           "variables": {"v%d" % i: {"domain": "d"} for i in range(c["nv"])},
+           "constraints": {"c%d" % i: {"type": "intention", "function": " + ".join("v%d" % j for j in scope)}
+                           for i, scope in enumerate(c["cons"])},
+           "agents": {a["name"]: {"capacity": a["capacity"]} for a in c["agents"]}}
+    routes = {"default": c["agents"][0]["droute"]}
+    for a in c["agents"]:
+        mine = {b: v for b, v in a["routes"].items() if dc.aid(a["name"]) < dc.aid(b)}
+        if mine:
+            routes[a["name"]] = mine
+    doc["routes"] = routes
+    doc["hosting_costs"] = {a["name"]: {"default": a["dhost"], "computations": dict(a["host"])}
+                            for a in c["agents"]}
+    hints = {}
+    if c.get("must_host"):
+        hints["must_host"] = {a: list(l) for a, l in c["must_host"].items()}
+    if c.get("host_with"):
+        hints["host_with"] = {a: list(l) for a, l in c["host_with"].items()}
+    if hints:
+        doc["distribution_hints"] = hints
+    return yaml.dump(doc, sort_keys=False)          # key order of must_host is part of the case
+
+
+def run_cli(c):
+    """the distribute command, in process: pydcop.commands.distribute.run_cmd on a yaml file"""
+    import argparse, contextlib, io, os, tempfile, yaml, logging
+    logging.getLogger("distribution").setLevel(logging.CRITICAL)
+    from pydcop.commands import distribute as cmd
+    rnd = dc.Rnd(c)
+    base = os.path.join(os.path.dirname(os.path.dirname(os.path.dirname(os.path.abspath(__file__)))), ".work")
+    os.makedirs(base, exist_ok=True)
+    with tempfile.TemporaryDirectory(prefix="c23cli_", dir=base) as d:
+        path = os.path.join(d, "t.yaml")
+        with open(path, "w") as f:
+            f.write(yaml_text(c))
+        args = argparse.Namespace(dcop_files=[path], distribution=c["method"], graph=None, algo=c["algo"],
+                                  cost=None, output=None)
+        cmd.result = {}
+        buf = io.StringIO()
+        try:
+            with dc.patched(c["method"], rnd), contextlib.redirect_stdout(buf):
+                cmd.run_cmd(args)
+            res = dict(error="NoExit", msg="run_cmd returned")
+        except SystemExit as e:
+            try:
+                out = yaml.safe_load(buf.getvalue()) or {}
+            except Exception as e2:
+                out = {"status": "unparsable output: %s" % type(e2).__name__}
+            st = out.get("status")
+            if e.code not in (0, None):
+                res = dict(error="SystemExit", msg="exit code %s: %s" % (e.code, buf.getvalue()[-150:]))
+            elif st == "SUCCESS":
+                m = out.get("distribution") or {}
+                res = dict(mapping={a: sorted(m[a]) for a in sorted(m)})
+            elif st == "FAIL":
+                res = dict(error="ImpossibleDistributionException", msg=str(out.get("error"))[:200])
+            elif st == "TIMEOUT":
+                res = dict(error="TimeoutError", msg="")
+            else:
+                res = dict(error="BadStatus", msg=str(st)[:200])
+        except Exception as e:
+            res = dict(error=type(e).__name__, msg=str(e)[:200])
+    view = dict(nodes=[[n, 0, []] for n in dc.comp_names(c)], links=[])     # generator's own view
+    return dict(graph=view, result=res, shuffles=rnd.shuffles, choices=rnd.choices, nrnd=rnd.k, host_with={})
+
+
 def run_impl(c):
+    if c.get("via") == "cli":
+        return run_cli(c)
     dcop, cg, agents, hints, cm, cl = dc.build_objects(c)
     view = dc.graph_view(cg)
     rnd = dc.Rnd(c)
@@ -276,7 +398,8 @@ def histogram(cases, obs):
     h = {}
     for c, o in zip(cases, obs):
         r = o.get("result", {})
-        k = "%s/%s" % (c["method"], "ok" if "mapping" in r else r.get("error", "driver"))
+        k = "%s%s/%s" % ("cli:" if c.get("via") == "cli" else "", c["method"],
+                         "ok" if "mapping" in r else r.get("error", "driver"))
         h[k] = h.get(k, 0) + 1
         if c["method"] == "adhoc" and "graph" in o:
             if "mapping" in r and len(o.get("shuffles", [])) > 1:
